@@ -4,6 +4,7 @@ HARNESSES = [
     ("rbtree", ["rbtree.cxx"], "plain"),
     ("specs", ["specs.cxx"], "plain"),
     ("subst", ["subst.cxx"], "plain"),
+    ("scopes", ["scopes.cxx"], "plain"),
     ("strings", ["strings.cxx"], "plain"),
     ("strings", ["strings.cxx"], "asan"),
 ]
